@@ -65,7 +65,7 @@ func (c *attachClient) PreAssign(e *Engine, st *State, lhs, rhs []ast.Expr, _ as
 			continue
 		}
 		takeNil := false
-		if f := st.Get(bk.Key + "." + c.takeF.Name()); f != nil && f.Nil == 1 {
+		if f := st.Get(bk.Key + "." + fldName(c.takeF)); f != nil && f.Nil == 1 {
 			takeNil = true
 		}
 		nonNil := e.NonNil(st, base)
@@ -79,10 +79,10 @@ func (c *attachClient) PreAssign(e *Engine, st *State, lhs, rhs []ast.Expr, _ as
 		// a sort and a take may only be attached when the subquery's own operator keeps the column names
 		if fld == c.sortF || fld == c.takeF {
 			okAttach := false
-			if f := st.Get("call:" + c.canAttach.FullName() + "(" + bk.Key + "." + c.opF.Name() + ")"); f != nil && f.HasEq && f.Eq == "true" {
+			if f := st.Get("call:" + c.canAttach.FullName() + "(" + bk.Key + "." + fldName(c.opF) + ")"); f != nil && f.HasEq && f.Eq == "true" {
 				okAttach = true
 			}
-			if f := st.Get(bk.Key + "." + c.opF.Name()); f != nil {
+			if f := st.Get(bk.Key + "." + fldName(c.opF)); f != nil {
 				all := true
 				for _, t := range c.needOut {
 					if !hasStr(f.TyOut, t) {
@@ -110,7 +110,7 @@ func (c *attachClient) PreAssign(e *Engine, st *State, lhs, rhs []ast.Expr, _ as
 // nothing pending (no LIMIT; no ORDER BY unless the operator is a pure row filter, which commutes with a sort).
 func (c *attachClient) opStore(e *Engine, st *State, sel *ast.SelectorExpr, rhs []ast.Expr) {
 	base := sel.X
-	key := fmt.Sprintf("%s store %s.%s in case %s", c.fn, exprStr(base), c.opF.Name(), c.caseOf(e, sel))
+	key := fmt.Sprintf("%s store %s.%s in case %s", c.fn, exprStr(base), fldName(c.opF), c.caseOf(e, sel))
 	if e.HasTag(st, base, "fresh:chainSubquery") || e.HasTag(st, base, "fresh:addr") {
 		e.Site("C02/attach", key, sel, true, "target subquery was created on this path")
 		return
@@ -120,11 +120,11 @@ func (c *attachClient) opStore(e *Engine, st *State, sel *ast.SelectorExpr, rhs 
 	if !bk.OK {
 		missing = append(missing, "a trackable target")
 	} else {
-		if f := st.Get(bk.Key + "." + c.takeF.Name()); f == nil || f.Nil != 1 {
+		if f := st.Get(bk.Key + "." + fldName(c.takeF)); f == nil || f.Nil != 1 {
 			missing = append(missing, "no row limit pending on it: the operator would be evaluated before a LIMIT that was written before it")
 		}
 		sortNil := false
-		if f := st.Get(bk.Key + "." + c.sortF.Name()); f != nil && f.Nil == 1 {
+		if f := st.Get(bk.Key + "." + fldName(c.sortF)); f != nil && f.Nil == 1 {
 			sortNil = true
 		}
 		filter := false
@@ -136,7 +136,7 @@ func (c *attachClient) opStore(e *Engine, st *State, sel *ast.SelectorExpr, rhs 
 		if !sortNil && !filter {
 			missing = append(missing, "no sort pending on it (or the operator being a pure row filter): its ORDER BY would refer to the columns after this operator")
 		}
-		if f := st.Get(bk.Key + "." + c.opF.Name()); f == nil || f.Nil != 1 {
+		if f := st.Get(bk.Key + "." + fldName(c.opF)); f == nil || f.Nil != 1 {
 			missing = append(missing, "no operator already stored on it")
 		}
 	}
@@ -343,8 +343,14 @@ func litOf(e ast.Expr) *ast.CompositeLit {
 func litField(info *types.Info, cl *ast.CompositeLit, name string) ast.Expr {
 	for _, el := range cl.Elts {
 		if kv, ok := el.(*ast.KeyValueExpr); ok {
-			if id, ok := kv.Key.(*ast.Ident); ok && id.Name == name {
-				return kv.Value
+			if id, ok := kv.Key.(*ast.Ident); ok {
+				if id.Name == name {
+					return kv.Value
+				}
+				// a field that goes by another name now
+				if f, isF := info.Uses[id].(*types.Var); isF && f.IsField() && fldName(f) == name {
+					return kv.Value
+				}
 			}
 		}
 	}
